@@ -72,6 +72,7 @@ type Node struct {
 
 	RO, SuperRO, Offline bool
 	Executed, Retrieved  string
+	PingErrno            int    // != 0: every ping is answered with this error
 	Dropped              string // received transactions thrown away unexecuted by RESET REPLICA ALL / CHANGE REPLICATION SOURCE (ground truth for monitors)
 	Chan                 *Chan // nil = no replication channel configured (a master)
 	SSMaster, SSSlave    bool
@@ -772,6 +773,9 @@ func (w *World) apply(n *Node, sess *session, q, kind, arg string) (result, stri
 	newNames := n.Version[0] > 8 || (n.Version[0] == 8 && (n.Version[1] > 0 || n.Version[2] >= 22))
 	switch kind {
 	case "SPing":
+		if n.PingErrno != 0 { // the server refuses ordinary work (1040 too many connections, 1129 host blocked ...): mysync calls such a ping "dubious"
+			return result{errno: n.PingErrno, msg: "refused"}, ""
+		}
 		return one([]string{"Ok"}, sp("1")), "(RBool true)"
 	case "SVersion":
 		return one([]string{"MajorVersion", "MinorVersion", "PatchVersion"}, sp(fmt.Sprint(n.Version[0])), sp(fmt.Sprint(n.Version[1])), sp(fmt.Sprint(n.Version[2]))), "ROk"
